@@ -197,12 +197,22 @@ def truncated(ctx, conversation, pv=757, n_max=None, sentinel=False,
     # ---- it reported an error, or took the documented fallback
     if conversation == 'connect_status':
         resp_end = srv.complete[0] if srv.complete else None
+        def second_is_login():
+            # exactly one more connection, and it is a LOGIN (handshake with
+            # next state 2 followed by a login start), not another query
+            if len(servers) != 2:
+                return False
+            s1 = servers[1]
+            return s1.handshake is not None and s1.handshake[-1] == 2 and \
+                len(s1.login_frames) == 1
         if resp_end is None or cutv < resp_end:
             # status query unanswered: fallback to the default version on a
             # second connection, no error
-            conds.append(z3.BoolVal(len(wld.sockets) == 2 and excs == []))
+            conds.append(z3.BoolVal(len(wld.sockets) == 2 and excs == []
+                                    and second_is_login()))
         else:
-            conds.append(z3.BoolVal(len(wld.sockets) == 2))
+            conds.append(z3.BoolVal(len(wld.sockets) == 2 and
+                                    second_is_login()))
     elif conversation == 'status' and not truncated_early:
         conds.append(z3.BoolVal(excs == [] and len(statuses) == 1 and
                                 len(pings) == 1 and exits == [1]))
